@@ -586,6 +586,21 @@ func (s *TermStore) umax(a *Term) uint64 {
 			return x
 		}
 		return y
+	case OpOr, OpXor:
+		m := s.umax(a.Args[0]) | s.umax(a.Args[1])
+		m |= m >> 1
+		m |= m >> 2
+		m |= m >> 4
+		m |= m >> 8
+		m |= m >> 16
+		m |= m >> 32
+		return m
+	case OpExtract:
+		lo := uint(a.K & 0xff)
+		m := s.umax(a.Args[0])
+		if lo == 0 && m <= mask(a.W) {
+			return m
+		}
 	case OpLShr:
 		if a.Args[1].IsConst() && a.Args[1].K < 64 {
 			return s.umax(a.Args[0]) >> a.Args[1].K
